@@ -184,6 +184,10 @@ def process(recs: List[Dict[str, Any]]) -> Dict[str, Any]:
 def check(tier: str, replay: Optional[str] = None) -> int:
     import_repo()
     v = Verdicts(PROP, tier)
+    if replay and json.loads(open(replay).read()).get("machine") == "Snoop":
+        from .. import snoop
+        snoop.check_into(v, PROP, json.loads(open(replay).read()))
+        return v.finish({"states": 1, "transitions": 1, "traces_validated_against_impl": 1, "samples": []}, ["replay of one snoop session"])
     res = tlc.run("MC_Dispatch.tla", f"MC_Dispatch_{tier}.cfg", timeout=3000)
     if not res.ok:
         raise tlc.MachineryError(f"TLC failed on Dispatch: {res.violated} {res.errors[:3]}\n{res.stdout[-2000:]}")
@@ -206,6 +210,11 @@ def check(tier: str, replay: Optional[str] = None) -> int:
         for k, x in o["stats"].items():
             stats[k] = stats.get(k, 0) + x
     print(f"[C06] replay: {stats}", flush=True)
+    # the session machine of the snoop tool (spec/Snoop.tla): a response is recognized through the request in context, only
+    from .. import snoop
+    if not replay:
+        stats["snoop"] = snoop.check_into(v, PROP)    # type: ignore[assignment]
+        print(f"[C06] snoop sessions: {stats['snoop']}", flush=True)
     if stats["must_nonempty"] == 0 or stats["dontcare"] == 0 or stats["responses"] == 0:
         raise tlc.MachineryError(f"vacuity: {stats}")
     cov = {"states": res.distinct, "transitions": res.generated, "traces_validated_against_impl": stats["layers"],
